@@ -46,9 +46,10 @@ fn registry() -> Vec<Arc<dyn Check>> {
     for id in ["C01", "C03", "C04", "C07", "C08", "C09", "C10", "C11", "C14", "C15", "C16", "C19"] {
         // checks whose workload verifies many argon2 hashes get a smaller thorough tier (about 10 minutes on 16 cores each)
         let thorough = if matches!(id, "C03" | "C11" | "C19" | "C14") { 500_000 } else { 900_000 };
-        if matches!(id, "C01" | "C04" | "C19") {
+        if id != "C14" {
             // "for every history" includes histories whose commands overlap: every 12th run is a burst run over the
-            // templates built around this property's objects (memberships, message streams, counters)
+            // templates built around this property's objects (memberships, message streams, counters, admissions,
+            // ranks, passwords ...); C14 (pure matching) has none
             v.push(Arc::new(Composite { id, step: Arc::new(stepchecks::StepCheck { id, quick: 27_500, thorough: thorough / 12 * 11 }), burst: Arc::new(c18::C18 { id }), every: 12 }));
         } else {
             v.push(Arc::new(stepchecks::StepCheck { id, quick: 30_000, thorough }));
@@ -56,7 +57,8 @@ fn registry() -> Vec<Arc<dyn Check>> {
     }
     v.push(Arc::new(c06::C06));
     v.push(Arc::new(c17::C17));
-    v.push(Arc::new(c12::C12));
+    // C12: two-world runs, plus every 8th run a burst run (multi-target WHOIS/NAMES/WHO/LIST racing +i, +s, NICK, JOIN/PART)
+    v.push(Arc::new(Composite { id: "C12", step: Arc::new(c12::C12), burst: Arc::new(c18::C18 { id: "C12" }), every: 8 }));
     v.push(Arc::new(c13::C13));
     v.push(Arc::new(c20::C20));
     v.push(Arc::new(c18::C18 { id: "C18" }));
